@@ -52,3 +52,5 @@ func replayProp[T any](t *testing.T, prop string, check func(T, *Stats) *Violati
 	}
 	fmt.Printf("REPLAY-OK property=%s\n", prop)
 }
+
+func tierIsThorough() bool { return os.Getenv("VERIF_TIER") == "thorough" }
